@@ -358,6 +358,25 @@ def retain_to_loop(s, rewrites=None):
         s = s[:m.start()] + new + s[end:]
 
 
+def option_map_to_match(s, var, rewrites=None):
+    """D20: `VAR.map(|x| BODY)` where VAR is a local of type Option<_> (named by the unit) becomes
+        match VAR { Some(x) => Some(BODY), None => None }
+    (Option::map applies the closure to the contained value). Refused when BODY has `return` or `?`."""
+    rx = re.compile(r'\b' + re.escape(var) + r'\.map\(\|(\w+)\|\s*')
+    m = rx.search(s)
+    if not m:
+        return s
+    x = m.group(1)
+    op = s.rfind('(', m.start(), m.end())
+    cp = _match(s, op, '(', ')')
+    body = s[m.end():cp].strip()
+    if re.search(r'\breturn\b|\?', body):
+        raise Undecided('unsupported construct: Option::map closure with early exit (D20 not applicable)')
+    if rewrites is not None:
+        rewrites.append('D20 Option::map on %s' % var)
+    return s[:m.start()] + 'match %s { Some(%s) => Some(%s), None => None }' % (var, x, body) + s[cp + 1:]
+
+
 def map_collect_to_loop(s, rewrites=None):
     """D19: the statement `let R = E.iter().map(|x| BODY).collect();` over a slice/Vec place E becomes the loop it stands for:
         let mut R = Vec::new();
@@ -513,12 +532,21 @@ def splice_contract(fn_text, clauses, ret_name=None):
     i = body_open(fn_text)
     head = fn_text[:i].rstrip()
     if ret_name:
-        m = re.search(r'->\s*([^{]+)$', head, re.S)
+        # the return arrow is the one that follows the parameter list (bounds in a where clause may contain arrows too)
+        fm = re.search(r'\bfn\s+\w+', head)
+        po = head.find('(', fm.end()) if fm else -1
+        if po < 0:
+            raise Undecided('lost anchor: fn has no parameter list')
+        pc = _match(head, po, '(', ')')
+        m = re.match(r'\s*->\s*(.+)$', head[pc + 1:], re.S)
         if not m:
             raise Undecided('lost anchor: fn has no return type to name')
-        where = ''
         ty = m.group(1).strip()
-        head = head[:m.start()] + '-> (' + ret_name + ': ' + ty + ')'
+        where = ''
+        wm = re.search(r'\n\s*where\b', ty)
+        if wm:
+            ty, where = ty[:wm.start()].strip(), '\n    ' + ty[wm.start():].strip()
+        head = head[:pc + 1] + ' -> (' + ret_name + ': ' + ty + ')' + where
     return head + '\n' + clauses.rstrip() + '\n    ' + fn_text[i:]
 
 
